@@ -334,7 +334,8 @@ def run(ctx):
         ctx.add_tlc(res, "exhaustive geometry box", dict(box))
     ldbox = dict(MaxS=ctx.pick(4, 6), MaxNum=12, MaxDen=12)
     # (G) TLC-chosen configurations run on the real code
-    reps = tlc_representatives(ctx, box)
+    gbox = ctx.pick(box, dict(MaxW=12, MaxH=12, MaxD=3, MaxDho=3, MaxS=6))
+    reps = tlc_representatives(ctx, gbox)
     lds = tlc_ld_cases(ctx, ldbox)
     if not reps or not lds:
         raise RuntimeError("TLC produced no configurations")
@@ -421,6 +422,7 @@ def run(ctx):
             "rule": "one recorded configuration per trace line: TLC class representatives of SliceGeometry.tla (VIEW ClassView), every low-delay (slices_x, slices_y, numerator, denominator) of the TLC box, every (extent, depth, depth_ho, slice count) of the box on each of the four axes, realistic formats and random values; non-trivial = a geometry with at least one transform level and more than one slice, or a slice_bytes case with more than one slice whose total is not an exact multiple (the floor matters)",
             "exhaustive": True,
             "exhaustive_box": dict(box, **{"LD_" + k: v for k, v in ldbox.items()}),
+            "g_box": gbox,
             "tlc_class_representatives": len(reps),
             "tlc_ld_cases": len(lds),
             "axis_box_cases": len(ab),
